@@ -9,10 +9,14 @@ from . import common
 LOCALS = re.compile(r"\b__(this|other|rhs|lhs|state|source|f|o|to_index|by)\b")
 
 
+BINDERS = re.compile(r"\b__(_this|_self|_other|l|r|)_(\w+)\b")
+
+
 def unlocal(text):
-    """the expansion spells its own parameters and locals with the reserved `__` prefix (fix 25236d4); how they are spelled is no property of derive-ex, so the
-    needles and patterns of the replay cases are written with the plain names and the observed text is brought to that spelling"""
-    return LOCALS.sub(lambda m: m.group(1), text or "")
+    """the expansion spells its own parameters and locals with the reserved `__` prefix (fix 25236d4), and so the bindings of its match arms (fix 4defb34:
+    `___this_0`, `__l_x`, `___x`); how they are spelled is no property of derive-ex, so the needles and patterns of the replay cases are written with the plain
+    names (`this`, `_this_0`, `l_x`, `_x`) and the observed text is brought to that spelling"""
+    return BINDERS.sub(lambda m: "%s_%s" % (m.group(1), m.group(2)), LOCALS.sub(lambda m: m.group(1), text or ""))
 
 
 def observe(case):
